@@ -103,10 +103,12 @@ func NewPositionRange(lines []string, val *yaml.Node, minColumn int) (offsets Po
 		columnIndex = minColumn
 	}
 
+	var lineBreak bool
 	for lineIndex <= len(lines) {
-		// Append new line but only if we already have any tokens.
-		if len(offsets) > 0 {
+		// Append the previous line break but only if it stands for a character of the value.
+		if lineBreak {
 			offsets = appendPosition(offsets, lineIndex-1, len(lines[lineIndex-2])+1)
+			lineBreak = false
 		}
 
 		if len(lines[lineIndex-1]) == 0 {
@@ -142,6 +144,7 @@ func NewPositionRange(lines []string, val *yaml.Node, minColumn int) (offsets Po
 				goto END
 			}
 			need = val.Value[needIndex]
+			lineBreak = true
 		}
 	}
 
